@@ -5,7 +5,7 @@ tie: both translators run on every build; real tdvp_ runs are observed operation
 environment model; the (time, length) arguments of every sweep of real runs are compared with the generated compositions in exact rationals.
 search / premises: dense exp(-u t H) at maximal bond dimension (real, imaginary, complex u; 2nd / 4th order; dt not dividing the interval),
 norm / energy / charge / canonical form / reported times, convergence orders for time-dependent generators (scipy solve_ivp reference)."""
-import json
+import json, os
 from fractions import Fraction
 import numpy as np
 import vlib
@@ -51,6 +51,8 @@ def trace_cases(ctx, st, n_cases, jobs, src, seeds=None):
         Hs = H if rng.random() < 0.7 else [H, -0.5 * dgen.hamiltonian(rng, fam, ops, N, cplx=cplx)[0]]
         desc = dict(kind='tdvp-trace', family=fam, sym=sym, N=N, method=method, precompute=pre, steps=nsteps, case_seed=sd)
         ctx.case(desc, nontrivial=True)
+        if os.environ.get('VERIF_DEBUG'):
+            print('case', json.dumps(desc), flush=True)
         with sweeptrace.traced(psi) as tr:
             try:
                 for _ in mps.tdvp_(psi, Hs, times=(0, 0.05 * nsteps), dt=0.05, u=1j, method=method, opts_svd={'D_total': 16, 'tol': 1e-12}, precompute=pre,
@@ -168,6 +170,19 @@ def numeric_cases(ctx, n_cases, seeds=None, focus=None):
             psi = dgen.random_state(rng, ops, N, D_total=64 if mode != 'conserve' else rng.randint(2, 5), n=n, cplx=True)
         except Exception:
             continue
+        if mode != 'conserve':
+            # maximal bond dimension: the exact MPS of a generic vector of the sector (all Schmidt ranks maximal), not random_mps (which spreads a
+            # requested total over the charge sectors and may leave some out)
+            import sys as _s, os as _o
+            _s.path.insert(0, _o.path.join(vlib.VERIF, 'tools', 'checks'))
+            import C09
+            idx = np.where(mask)[0]
+            g = np.zeros(len(mask), dtype=complex)
+            g[idx] = np.array([rng.gauss(0, 1) + 1j * rng.gauss(0, 1) for _ in idx])
+            try:
+                psi = C09._dense_to_mps(ops, N, g / np.linalg.norm(g), n)
+            except Exception:
+                continue
         psi.canonize_(to='first', normalize=True)
         v0 = dgen.dvec(psi, ops)
         ctx.case(desc, nontrivial=int(mask.sum()) >= 2)
@@ -219,36 +234,45 @@ def numeric_cases(ctx, n_cases, seeds=None, focus=None):
             ref = ref / np.linalg.norm(ref)
             if abs(np.linalg.norm(v1) - 1) > 1e-8:
                 ctx.violation('tdvp_(normalize=True) returned norm %r' % np.linalg.norm(v1), desc)
-        if sub:
-            # subtracting the instantaneous local energy changes the state by a scalar factor only (a phase in real time): compare rays
-            c = np.vdot(ref, v1) / max(np.vdot(ref, ref).real, 1e-300)
-            ref = c * ref
-            if abs(c) < 1e-12:
-                ctx.violation('tdvp_(subtract_E=True) returned a state orthogonal to exp(-u t H) psi', desc)
-                continue
-        err = np.linalg.norm(v1 - ref) / max(np.linalg.norm(ref), 1e-300)
-        if mode == 'exact':
-            # maximal bond dimension: the splitting is exact, independent of dt and order
-            if err > 1e-7:
-                ctx.violation('tdvp_ at maximal bond dimension differs from exp(-u t H) psi by %.3g (%s %s N=%d %s %s u=%s dt=T/%.3g precompute=%s subtract_E=%s normalize=%s)' % (
+
+        def dist(v):
+            r = ref
+            if sub:
+                # subtracting the instantaneous local energy changes the state by a scalar factor only (a phase in real time): compare rays
+                c = np.vdot(r, v) / max(np.vdot(r, r).real, 1e-300)
+                r = c * r
+            return np.linalg.norm(v - r) / max(np.linalg.norm(r), 1e-300)
+        err = dist(v1)
+        steps = int((T - 1e-12) // dt) + 1
+        ds = T / steps
+        rate = max(scaleH, om if mode == 'timedep' else 0.0)
+        p_ord = 2 if order == '2nd' else 4
+        complete = (N == 2 and mode == 'exact')
+        if complete:
+            # both bond bases are complete: every local update is the exact global evolution, independent of dt and order
+            ctx.count('tdvp:complete-bond-spaces')
+            if err > 1e-8:
+                ctx.violation('tdvp_ with complete bond spaces differs from exp(-u t H) psi by %.3g (%s %s N=%d %s %s u=%s dt=T/%.3g precompute=%s subtract_E=%s normalize=%s)' % (
                     err, fam, sym, N, method, order, u, T / dt, pre, sub, normalize), desc)
-        else:
-            # time-dependent generator: midpoint rule of the stated order
+            continue
+        # maximal Schmidt ranks: no projection error; what remains is the splitting / midpoint error of the stated order
+        bound = 10.0 * (ds * rate) ** p_ord * max(1.0, T * rate) + 1e-7
+        if err > bound:
+            ctx.violation('tdvp_ (%s order, %s) is off exp(-u t H) psi by %.3g after %d step(s) of %.3g (bound %.3g; %s %s N=%d u=%s mode=%s)' % (
+                order, method, err, steps, ds, bound, fam, sym, N, u, mode), desc)
+            continue
+        if err > 1e-7 and ds * rate <= 0.3:
             try:
-                p2, _ = run(dt / 2)
+                p2, _ = run(ds / 2)
             except Exception as e:
                 ctx.violation('tdvp_ raised %s on the refined grid' % type(e).__name__, desc)
                 continue
-            v2 = dgen.dvec(p2, ops)
-            err2 = np.linalg.norm(v2 - ref) / max(np.linalg.norm(ref), 1e-300)
+            err2 = dist(dgen.dvec(p2, ops))
             want = 3.0 if order == '2nd' else 9.0
-            ctx.count('timedep:ratio-tested' if err > 1e-7 else 'timedep:below-noise')
-            steps = int((T - 1e-12) // dt) + 1
-            bound = 5.0 * (om * T) ** 2 * (T * scaleH) / steps ** 2 + 1e-7
-            if err > bound:
-                ctx.violation('tdvp_ with a time-dependent generator is off by %.3g after %d step(s) (bound %.3g; %s %s N=%d %s %s u=%s)' % (err, steps, bound, fam, sym, N, method, order, u), desc)
-            elif err > 1e-6 and err2 > err / want * 1.8 + 1e-9 and (T / dt) == int(T / dt):
-                ctx.violation('tdvp_ (%s order) error goes from %.3g to %.3g when dt is halved (expected a factor >= %.0f; %s %s N=%d %s u=%s)' % (order, err, err2, want, fam, sym, N, method, u), desc)
+            ctx.count('tdvp:halving-ratio-tested')
+            if err2 > err / want * 1.5 + 1e-9:
+                ctx.violation('tdvp_ (%s order, %s) error goes from %.3g to %.3g when the step %.3g is halved (expected a factor >= %.0f; %s %s N=%d u=%s mode=%s)' % (
+                    order, method, err, err2, ds, want, fam, sym, N, u, mode), desc)
 
 
 def compare_model(ctx, model_ok, jobs, src):
